@@ -11,7 +11,8 @@
      * the __init__ chain AliasMixin -> TracerMixin -> BaseModel/BaseLinker -> SolverMixin -> ModelInterface ->
        VectorContainer as a list of primitive heap actions ([init_actions]);
      * every public mutating operation as a list of primitive actions relative to the receiver ([op_...]);
-     * reindex ([reindex_M]) — cells are copied BY VALUE OF THE CELL, i.e. references for object-dtype arrays (#21).
+     * reindex ([reindex_M]) — cells are copied BY VALUE OF THE CELL, i.e. references for object-dtype arrays (#21);
+     * copy() under both memo policies (one fresh memo per __dict__ entry, as the code does; or one memo for all entries).
    What is abstracted: CPython object semantics (identity = heap location, no reference counting / gc, no cycles:
    [dc] is fuel-bounded and fails on a cyclic graph), scalar contents are opaque codes chosen by the harness. *)
 From Coq Require Import ZArith List Bool Lia.
@@ -465,7 +466,11 @@ Definition zmem (x : Z) (l : list Z) : bool := existsb (Z.eqb x) l.
 (* encoded constants the harness supplies (codes of '-', -1, float, object dtype, 'python', False, True, 0.0 ...) *)
 Record consts : Type := mkConsts {
   k_status0 : Z; k_iter0 : Z; k_dt_status : Z; k_dt_iter : Z; k_dt_obj : Z; k_dt_float : Z;
-  k_false : Z; k_engine : Z; k_default : Z; k_linker_name : Z; k_dt_trace_values : Z; k_pyfloat : Z }.
+  k_false : Z; k_engine : Z; k_default : Z; k_linker_name : Z; k_dt_trace_values : Z; k_pyfloat : Z;
+  k_single_memo : bool }.
+  (* k_single_memo: the memo policy of copy().  false = the code as it is ({k: copy.deepcopy(v) for k, v in __dict__.items()}: a FRESH
+     memo per entry, aliasing between entries is dropped); true = one memo for all entries (copy.deepcopy(self.__dict__): aliasing
+     between entries is kept).  The property allows both; every theorem holds for every value of the field. *)
 
 Record iargs : Type := mkIargs {
   ia_span : src;                    (* how the span argument reaches the instance: SScalar (range / tuple / any immutable),
@@ -590,6 +595,16 @@ Fixpoint dc_entries (h : heap) (cs : list (Z * val)) : option (heap * list (Z * 
     end
   end.
 
+(* the same with ONE memo threaded through all entries *)
+Definition dc_entries1 (h : heap) (cs : list (Z * val)) : option (heap * list (Z * val)) :=
+  match dc_cells (dc (S (length h))) h [] cs with
+  | Some (h', _, cs') => Some (h', cs')
+  | None => None
+  end.
+
+Definition dc_entries_pol (single : bool) (h : heap) (cs : list (Z * val)) : option (heap * list (Z * val)) :=
+  if single then dc_entries1 h cs else dc_entries h cs.
+
 Definition dict_update (cs new : list (Z * val)) : list (Z * val) :=
   fold_left (fun acc kv => cell_set (fst kv) (snd kv) acc) new cs.
 
@@ -608,7 +623,7 @@ Definition copy_M (K : consts) (h : heap) (r : loc) : option (heap * loc) :=
           let n := arr_len h r [V N_status] in
           let i := init_M h1 c K (default_iargs K (val_src sp') n) in   (* self.__class__(span=...) *)
           if snd i then
-            match dc_entries (fst (fst i)) (ocells o) with           (* the dict comprehension *)
+            match dc_entries_pol (k_single_memo K) (fst (fst i)) (ocells o) with           (* the dict comprehension *)
             | None => None
             | Some (h3, cs') =>
               match nth_error h3 (snd (fst i)) with
@@ -678,7 +693,7 @@ Definition linker_copy_M (K : consts) (h : heap) (r : loc) : option (heap * loc)
           let h2 := h1 ++ [mkObj KDict cs'] in
           let i := init_M h2 c K (linker_iargs h2 K d' (k_linker_name K)) in
           if snd i then
-            match dc_entries (fst (fst i)) (filter (fun kv => negb (fst kv =? A N_submodels)) (ocells o)) with
+            match dc_entries_pol (k_single_memo K) (fst (fst i)) (filter (fun kv => negb (fst kv =? A N_submodels)) (ocells o)) with
             | None => None
             | Some (h3, es) =>
               match nth_error h3 (snd (fst i)) with
@@ -790,7 +805,9 @@ Inductive op : Type :=
 | OSubSetItem (k name pos v : Z)                  (* linker.submodels[k].name[pos] = v *)
 | OSubListAppend (k attr v : Z)
 | OSubStatus (k t st it : Z)
-| OPathAppend (p : path) (v : Z).                  (* <list reached from the object through p>.append(v), e.g. obj.trace[t].names *)
+| OPathAppend (p : path) (v : Z)                   (* <list reached from the object through p>.append(v), e.g. obj.trace[t].names *)
+| OAliasAttr (name : Z) (p : path).                (* obj.name = <the object's own object at p>, e.g. m.mine = m.names : the user
+                                                      creates aliasing between two entries of one object *)
 
 Definition is_empty_trace (h : heap) (r : loc) (t : Z) : bool :=
   Nat.eqb (arr_len h r [V N_trace; t; A N_values]) 0.
@@ -851,19 +868,20 @@ Definition compile_op (K : consts) (h : heap) (r : loc) (o : op) : list action :
     let col := map (fun x => cell_scalar h r [V (resolve_alias h r x)] t) names in
     let fresh := is_empty_trace h r t || reset in
     let old := if fresh then [] else scalars_path h r [V N_trace; t; A N_values] in
-    (if fresh then
-       trace_cell_acts [V N_trace] t
-         (match m with
-          | TMNames => SAlias [A N_names]
-          | TMClass => SClassRef (A C_TRACE_VARIABLES)
-          | TMUser vs => new_list vs end) K
-     else [])
+    (* since fix cfb58ac: `names = list(names)` — the Trace gets a list of its own in every mode *)
+    (if fresh then trace_cell_acts [V N_trace] t (new_list names) K else [])
     ++ [AAppend [V N_trace; t; A N_index] (SScalar label);
         ASet [V N_trace; t] (A N_values) (new_arr (k_dt_trace_values K) (old ++ col))]
   | OSubSetItem k name pos v => [ASet [A N_submodels; k; V name] pos (SScalar v)]
   | OSubListAppend k attr v => [AAppend [A N_submodels; k; A attr] (SScalar v)]
   | OSubStatus k t st it => [ASet [A N_submodels; k; V N_status] t (SScalar st); ASet [A N_submodels; k; V N_iterations] t (SScalar it)]
   | OPathAppend p v => [AAppend p (SScalar v)]
+  | OAliasAttr name p =>
+    let x := resolve_alias h r name in
+    if zmem x (scalars_path h r [A N_index]) then []
+    else if zmem x (scalars_path h r [A N_attributes]) then [ASet [] (A x) (SAlias p)]
+    else if own_scalar h r (A N_strict) =? k_false K then add_attribute_acts x (SAlias p)
+    else []
   end.
 
 (* ------------------------------------------------------------------ histories *)
